@@ -25,6 +25,7 @@ struct tres {
   long foreign_depth;     /* exception depth not restored */
   long tls_wrong;
   long trylock_fail;
+  long gate_wrong;        /* with blocks on the thread's own Gate did not start and stop it exactly once each */
   int published[64];
   var root_result;        /* a root object the worker built as its result and hands to the joiner */
   int64_t root_id;
@@ -151,9 +152,21 @@ static void one_section(int idx, struct tres* out, vh_rng* r) {
   out->sections++;
 }
 
+/* a second type with a Start instance: every thread has a Gate of its own and walks through it (a with block) between
+   its Mutex sections, so that with blocks on two different types are entered and left by different threads at the same
+   time; each Gate counts its own starts and stops, which only its thread causes */
+struct Gate { long starts, stops; int owner; };
+static void Gate_Start(var self) { struct Gate* g = self; g->starts++; }
+static void Gate_Stop(var self) { struct Gate* g = self; g->stops++; }
+static var Gate = Cello(Gate, Instance(Start, Gate_Start, Gate_Stop, NULL, NULL));
+static var GATES[16];
+
 static void mutex_work(int idx, uint64_t seed, struct tres* out) {
   vh_rng r; vh_rng_seed(&r, seed ^ 0xABCDEF);
+  struct Gate* gate = GATES[idx];
+  long g0 = gate->starts, walked = 0;
   for (int s = 0; s < sections_per_thread; s++) {
+    if (vh_chance(&r, 50)) { with (g in gate) { walked++; } }
     switch (vh_below(&r, 3)) {
       case 0: lock(the_mutex); one_section(idx, out, &r); unlock(the_mutex); break;
       case 1: {
@@ -166,6 +179,7 @@ static void mutex_work(int idx, uint64_t seed, struct tres* out) {
     }
     jitter(&r);
   }
+  if (gate->starts - g0 != walked || gate->starts != gate->stops) { out->gate_wrong++; }
 }
 
 /* ---------- thread bodies ---------- */
@@ -410,6 +424,8 @@ static void one_trial(vh_rng* r, int nthreads) {
   long total = 0, overlaps = 0, contended = 0;
   for (int i = 0; i < nthreads; i++) { total += RES[i].sections; overlaps += RES[i].overlaps; contended += RES[i].trylock_fail; }
   vh_evals(2);
+  for (int i = 0; i < nthreads; i++) { if (RES[i].gate_wrong) { vh_violation("C13:mutex:with-block-on-another-type-diverted", "thread %d: the with blocks on its own Gate did not start and stop it once each while other threads were in with blocks on the Mutex", i); break; } }
+  vh_count_n("threads_alternating_with_blocks_on_two_types", (uint64_t)nthreads);
   if (overlaps) { vh_violation("C13:mutex:critical-sections-overlapped", "%ld of %ld sections found the in-section flag already set (%d threads)", overlaps, total, nthreads); }
   if (guarded_counter != total) { vh_violation("C13:mutex:lost-update-on-the-guarded-counter", "counter %ld after %ld sections (%d threads)", guarded_counter, total, nthreads); }
   long handovers = 0; uint64_t oh = 0xCBF29CE484222325ULL;
@@ -447,5 +463,6 @@ static void fixed(void) {
 
 int main(int argc, char** argv) {
   mo_prop = "C13";
+  for (int i = 0; i < 16; i++) { GATES[i] = new_raw(Gate); }
   return vh_run(argc, argv, "trial", fixed, case_random);
 }
